@@ -274,8 +274,7 @@ func (r *Runner) Step(o Op) Reply {
 		r.tr.reset()
 	}
 	rep := r.execWatch(o, h, h2)
-	if r.tr != nil && r.autoIdle {
-		// (without the wait the background shrinker's transactions would be mixed into this call's events)
+	if r.tr != nil {
 		fmt.Fprintln(r.w, r.tr.line())
 	}
 	if rep.Kind == "handle" && rep.Code == 0 && o.Proc != "lookup" {
@@ -304,6 +303,11 @@ func (r *Runner) execWatch(o Op, h, h2 []byte) Reply {
 				pc <- fmt.Sprintf("%v\n%s", e, debug.Stack())
 			}
 		}()
+		if r.tr != nil {
+			r.tr.mu.Lock()
+			r.tr.gid = curGoid()
+			r.tr.mu.Unlock()
+		}
 		ch <- Exec(r.srv, o, h, h2)
 	}()
 	select {
